@@ -33,6 +33,7 @@ PLAYBACK_FLAGS = ["-Z", "concrete-playback", "--concrete-playback=print"]
 MOUNTS = {
     "in_context": ("src/client/context.rs", "client::context::verif_in_context", "super::verif_in_context"),
     "in_ctx_pkt": ("src/client/context.rs", "client::context::verif_in_ctx_pkt", "super::verif_in_ctx_pkt"),
+    "in_ack": ("src/codec/ack.rs", "codec::ack::verif_in_ack", "super::verif_in_ack"),
     "in_packet_stream": ("src/io/packet_stream.rs", "io::packet_stream::verif_in_packet_stream", "super::verif_in_packet_stream"),
     "in_handle": ("src/client/handle.rs", "client::handle::verif_in_handle", "super::verif_in_handle"),
     "in_stream": ("src/client/stream.rs", "client::stream::verif_in_stream", "super::verif_in_stream"),
